@@ -244,6 +244,23 @@ def matrix(tier):
         out.append(("perm", {"xtal": xt, "S": S}))
     for a in (1.0, 1.3, 2.1):
         out.append(("thmfam", {"a": a}))
+    if tier != "quick":
+        S3 = [[2, 0, 0], [0, 2, 0], [0, 0, 1]]
+        S4 = [[1, 0, 1], [0, 2, 0], [-1, 0, 1]]
+        I3 = [[1, 0, 0], [0, 1, 0], [0, 0, 1]]
+        for xt, S in (("wurtzite-4", S1), ("rutile-6", I3), ("NaCl-prim-2", S3), ("NaCl-prim-2", S4), ("mono-P21-2", S1), ("rhomb-prim-2", S2), ("CsCl-2", S3),
+                      ("trig-P3-4", I3), ("mono-Pc-2", S3), ("tri-P-1bar-2", S4)):
+            for compact in (False, True):
+                out.append(("dynmat", {"xtal": xt, "S": S, "compact": compact}))
+                out.append(("d2f", {"xtal": xt, "S": S, "compact": compact}))
+                out.append(("ddm", {"xtal": xt, "S": S, "nac": None, "compact": compact}))
+            out.append(("perm", {"xtal": xt, "S": S}))
+        for mesh in ([7, 1, 1], [1, 1, 17], [4, 4, 4], [2, 3, 5], [6, 5, 1]):
+            out.append(("thermal", {"xtal": "tri-P1-3", "S": S1, "mesh": mesh, "meshsym": False, "cutoff": 1.0}))
+            out.append(("thmesh", {"xtal": "tri-P1-3", "S": S1, "mesh": mesh, "meshsym": False}))
+            out.append(("thmesh", {"xtal": "hcp-2", "S": S2, "mesh": mesh, "meshsym": True}))
+            for xt in ("bct-conv-2", "mono-C-conv-4", "tri-P-1bar-2", "rhomb-prim-2"):
+                out.append(("thm", {"xtal": xt, "mesh": mesh}))
     from checks import c05
 
     lats = list(c05.lattices("quick"))
